@@ -133,7 +133,7 @@ def run(chk):
              [{"fa.info": ["f1", "f2"]}, {"fa.info": ["f1"]}, {"fa.info": []}],            # a list shrinking by its tail (needs the list hook)
              [{"fa.*": ["f1"]}, {"fa.*": ["f1"]}, {"fb.*": ["f1"]}],
              [{"fa.*": ["f1"]}, "BROKEN", {"fa.debug": ["f2"]}],
-             [{"FA.Error": ["f1"], "fa.error": ["f2"]}]]
+             [{"FA.Error": ["f1"], "fb.error": ["f2"]}]]
     for f in fixed: cases.append(f)
     for _ in range(n):
         secs = []
